@@ -628,4 +628,123 @@ theorem plain_tail_header (r : List Char) : PlainExtra ('\n' :: tokOf (' ' :: r)
 theorem plain_tail_eof : PlainExtra ('\n' :: tokOf [Char.ofNat 0]) := by
   right; right; decide
 
+
+/-! ### REAL (ECL flavour) and the IX flavour of both types -/
+
+theorem eclReal_shape (s : Sci) (h : SciOk 7 s) (h2 : s.exp.natAbs < 98) :
+    (eclReal s).length = (if s.neg then 15 else 14) ∧ NoSp (eclReal s) ∧ eclReal s ≠ [] ∧
+      (eclReal s).head? ≠ some ' ' := by
+  have hx : (s.exp + 1).natAbs < 100 := by omega
+  have hl := expField_length_two (s.exp + 1) hx
+  have hns := expField_noSp (s.exp + 1) (by omega)
+  refine ⟨?_, ?_, ?_, ?_⟩
+  · unfold eclReal
+    simp only [List.length_append, List.length_cons, List.length_nil, h.len, hl]
+    cases s.neg <;> simp
+  · intro c hc
+    unfold eclReal at hc
+    simp only [List.mem_append, List.mem_cons, List.mem_nil_iff, or_false] at hc
+    rcases hc with (((hc | hc) | hc) | hc) | hc
+    · split at hc <;> simp at hc; subst hc; decide
+    · rcases hc with rfl | rfl <;> decide
+    · exact (digit_not_sign c (h.dig c hc)).2.2
+    · subst hc; decide
+    · exact hns c hc
+  · unfold eclReal; cases s.neg <;> simp
+  · unfold eclReal; cases s.neg <;> simp
+
+theorem realField_good (s : Sci) (h : SciOk 7 s) (h2 : s.exp.natAbs < 98) :
+    GoodField (realField (eclReal s)) ∧ dropSp (realField (eclReal s)) = eclReal s ∧
+      (realField (eclReal s)).length = Gen.EclIO.columnWidthReal := by
+  obtain ⟨hl, hns, hne, hh⟩ := eclReal_shape s h h2
+  have hle : (eclReal s).length ≤ 15 := by rw [hl]; split <;> omega
+  have heq : realField (eclReal s) =
+      List.replicate ((17 - (eclReal s).length - 1) + 1) ' ' ++ eclReal s := by
+    unfold realField Unrst.setw
+    simp only [Gen.EclIO.columnWidthReal]
+    congr 2; omega
+  have hg := goodField_of_body hne hh hns (17 - (eclReal s).length - 1)
+  rw [← heq] at hg
+  refine ⟨hg.1, hg.2, ?_⟩
+  rw [heq, List.length_append, List.length_replicate]
+  simp only [Gen.EclIO.columnWidthReal]; omega
+
+/-- REAL: the token reaches `std::stod` unchanged; the number recognised is the 8-digit decimal
+`snprintf` printed. -/
+theorem real_token_value (s : Sci) (h : SciOk 7 s) (h2 : s.exp.natAbs < 98) (extra : List Char)
+    (hp : PlainExtra extra) :
+    parseDec (cstr (eclReal s ++ extra)) = .num s.neg (decVal s.digits) (s.exp - 7) 8 := by
+  have hx : (s.exp + 1).natAbs < 10 ^ 12 := by omega
+  obtain ⟨hv, hed, hedn, _⟩ := expDigits_spec (s.exp + 1) hx
+  have hedl : (expDigits (s.exp + 1)).length ≤ 6 := by
+    rw [expDigits_length (s.exp + 1) (by omega)]; split <;> omega
+  have hform : eclReal s ++ extra = ((if s.neg then ['-'] else []) ++ '0' :: '.' :: (s.digits ++ 'E' ::
+      signChar (s.exp + 1) :: expDigits (s.exp + 1))) ++ extra := by
+    unfold eclReal; rw [expField_eq]; simp [signChar]
+  have hpre : ∀ x ∈ (if s.neg then ['-'] else []) ++ '0' :: '.' :: (s.digits ++ 'E' :: signChar (s.exp + 1) ::
+      expDigits (s.exp + 1)), (fun c => decide (c ≠ Char.ofNat 0)) x = true := by
+    intro x hxm
+    simp only [List.mem_append, List.mem_cons, List.mem_nil_iff, or_false] at hxm
+    have : x ≠ Char.ofNat 0 := by
+      rcases hxm with hxm | rfl | rfl | hxm | rfl | rfl | hxm
+      · split at hxm <;> simp at hxm; subst hxm; decide
+      · decide
+      · decide
+      · exact (digit_misc x (h.dig x hxm)).2.2.2.2
+      · decide
+      · rcases signChar_pm (s.exp + 1) with h' | h' <;> rw [h'] <;> decide
+      · exact (digit_misc x (hed x hxm)).2.2.2.2
+    simpa using this
+  have hc : cstr (eclReal s ++ extra) = (if s.neg then ['-'] else []) ++ '0' :: '.' :: (s.digits ++ 'E' ::
+      signChar (s.exp + 1) :: (expDigits (s.exp + 1) ++ cstr extra)) := by
+    rw [hform]; unfold cstr
+    rw [takeWhile_append_all _ _ _ hpre]; simp
+  rw [hc]
+  have he' : NonDigitHead (cstr extra) := by
+    rcases cstr_plain extra hp with h' | h' <;> rw [h'] <;> intro c hc' <;> simp at hc'
+    subst hc'; decide
+  rw [parseDec_canon s.neg s.digits (expDigits (s.exp + 1)) (cstr extra) (signChar (s.exp + 1))
+    (signChar_pm _) h.dig hed hedn hedl he']
+  rw [hv, h.len, dropWhile_zero_of_lead s.digits h.lead, h.len]
+  congr 1
+  unfold signChar
+  split
+  · rename_i hneg; simp; omega
+  · rename_i hpos
+    have : ¬ (('+' : Char) = '-') := by decide
+    simp only [this, if_false]; omega
+
+def sciNumberReal (s : Sci) : Dec := .num s.neg (decVal s.digits) (s.exp - 7) 8
+
+/-- **Formatted REAL array, value level** (ECL flavour). -/
+theorem real_array_numbers (scis : List Sci) (h : ∀ s ∈ scis, SciOk 7 s ∧ s.exp.natAbs < 98) (tail : List Char)
+    (ht : PlainExtra ('\n' :: tokOf tail)) :
+    ∃ toks, parseData .real scis.length
+        (numericBody .real (scis.map fun s => realField (eclReal s)) ++ tail) = some (.toks toks) ∧
+      toks.map tokenNumber = scis.map sciNumberReal := by
+  have hg : ∀ f ∈ scis.map (fun s => realField (eclReal s)), GoodField f := by
+    intro f hf; obtain ⟨x, hx, rfl⟩ := List.mem_map.mp hf; exact (realField_good x (h x hx).1 (h x hx).2).1
+  obtain ⟨toks, hr, hrel⟩ := readToks_fmtLoop_plain (fmtParams .real).2.1 (fmtParams .real).1
+    (scis.map fun s => realField (eclReal s)) 0 tail hg
+  rw [List.length_map] at hr
+  refine ⟨toks, ?_, ?_⟩
+  · simp only [parseData, numericBody]; rw [hr]; rfl
+  · have hrel' : All2 (fun (s : Sci) tok => TokRelP tail (realField (eclReal s)) tok) scis toks := by
+      clear hr hg
+      induction scis generalizing toks with
+      | nil => cases hrel; exact All2.nil
+      | cons x xs ih =>
+        cases hrel with
+        | cons h1 h2 => exact All2.cons h1 (ih (fun y hy => h y (by simp [hy])) _ h2)
+    refine map_of_all2 _ tokenNumber sciNumberReal scis toks hrel' ?_
+    intro x hx tok ⟨extra, htok, hex⟩
+    have hp : PlainExtra extra := by
+      rcases hex with rfl | rfl | rfl
+      · exact Or.inl rfl
+      · exact Or.inr (Or.inl rfl)
+      · exact ht
+    simp only [tokenNumber, sciNumberReal]
+    rw [htok, (realField_good x (h x hx).1 (h x hx).2).2.1]
+    exact real_token_value x (h x hx).1 (h x hx).2 extra hp
+
 end OpmVerif.FmtReal
